@@ -87,24 +87,18 @@ def run(ctx):
     sp = ("param", 1, body.locals[1].get("name") or "")
     op_ = ("param", 2, body.locals[2].get("name") or "")
     ssp = ("param", 3, body.locals[3].get("name") or "")
-    w = Walker(body, max_visits=3)
+    w = utable.walker(prog, body, max_visits=3)
     for v in ("SComplex", "SLinkedList"):
         bad = None
         n = 0
         for p in w.paths({sp: frozenset([v]), op_: frozenset([v])}):
             if p.end != "return" or not (p.ret[0] == "agg" and p.ret[2] == "Some"):
                 continue
-            anon_hit = any(e["k"] == "branch" and e["value"] is True and e["cond"][0] == "call" and e["cond"][1].endswith("::eq")
-                           and any(isinstance(a, tuple) and a[0] == "agg" and a[2] == "Anonymous" for a in e["cond"][2])
-                           and not utable.is_anon_test(e["cond"]) for e in p.events)
-            if not anon_hit:
+            anon = utable.anon_elements(p)
+            if not anon:
                 continue
             ucalls = [e for e in p.calls() if e["callee"].endswith("Unifiable::unify")]
-            skip0 = any(e["k"] == "branch" and e["value"] is True and e["cond"][0] == "call" and e["cond"][1].endswith("::eq")
-                        and any(isinstance(a, tuple) and a[0] == "agg" and a[2] == "Anonymous" for a in e["cond"][2])
-                        and any(isinstance(a, tuple) and mentions(a, lambda t: t[0] == "call" and t[1].endswith("::index")
-                                                                 and t[2][1][0] == "const" and t[2][1][3] == 0)
-                                for a in e["cond"][2]) for e in p.events)
+            skip0 = any(utable.functor_position(x) for x in anon)
             if v == "SComplex" and skip0:
                 continue     # `$_` in functor position: outside the universe (make_complex requires an atom; see C06/R4)
             n += 1
